@@ -675,6 +675,16 @@ class CallMixin:
         m, key, v = args
         return k(Val(m.ty, z3.Store(m.t, coerce(key, m.ty[1]).t, coerce(v, m.ty[2]).t if not isinstance(v, PyTup) else tup_mk(m.ty[2], v.items).t)), st)
 
+    def bi_getcoroutinestate(self, args, kwargs, st, k):
+        v = args[0]
+        ref = self.coro_ref(st, v).t if isinstance(v, CoroVal) else v.t
+        self.assumptions_used.add("inspect.getcoroutinestate returns the ghost coroutine state (created/suspended/running/closed)")
+        return k(Val(INT, self.get_coro_state(st, ref)), st)
+
+    def bb_opaque_close(self, recv, args, kwargs, st, k):
+        self.assumptions_used.add("close() of a payload object that never started or has finished has no effect on the simulation state")
+        return k(NONE, st)
+
     def bi_identity(self, args, kwargs, st, k):
         return k(args[0], st)
 
